@@ -8,7 +8,7 @@ props=$(python3 -c "import json;print(' '.join(c['property_id'] for c in json.lo
 mkdir -p /tmp/benign-out
 for id in $ids; do
   git -C /repo apply --check /verif/benign/$id/patch.diff 2>/dev/null || { echo "[$id] patch does not apply"; continue; }
-  git -C /repo apply /verif/benign/$id/patch.diff
+  rm -f /tmp/benign-out/$id.rc; git -C /repo apply /verif/benign/$id/patch.diff
   for p in $props; do echo $p; done | xargs -P 5 -I{} sh -c "bin/verif check {} --tier quick > /tmp/benign-out/$id-{}.log 2>&1; echo {}=\$? >> /tmp/benign-out/$id.rc"
   git -C /repo checkout -- .
   bad=$(grep -v "=0$" /tmp/benign-out/$id.rc | tr '\n' ' ')
